@@ -186,7 +186,11 @@ func (s *raSys) canon() string {
 		}
 		c = fmt.Sprintf("%s@%v", v, age)
 	}
-	return fmt.Sprintf("stored=%s|cached=%s|down=%v", s.stored, c, s.down)
+	real := "-"
+	if v, ok := s.a.cache.Get("app1"); ok {
+		real = fmt.Sprint(v)
+	}
+	return fmt.Sprintf("stored=%s|cached=%s|down=%v|real=%s", s.stored, c, s.down, real)
 }
 
 func TestVerifRpcAuth(t *testing.T) {
